@@ -67,6 +67,8 @@ func init() {
 	extendProp("C08", "(R8.13) the error of fetchMatchedRollout is propagated by every admission handler (error discipline of R6.1 applied to the workload webhook); (R8.14) UnifiedWorkloadHandler.Handle returns a bare Allowed before handleStatefulSetLikeWorkload only when the workload-type label is not 'statefulset' AND the kind is not StatefulSet.", r8C08)
 	extendProp("C12", "(R12.12) PatchPodBatchLabel returns nil without running patchPodBatchLabel only for an empty rollout-id or an empty pod list.", r8C12)
 	extendProp("C17", "(R17.14) SetDefaultDeploymentStrategy is called by the writers of the strategy annotation only, never from the Deployment controller package, which reads the stored strategy as it is.", r8C17)
+	extendProp("C11", "(R11.15) refreshStatus writes status.observedReleasePlanHash only on the path where it is empty.", r8C11)
+	extendProp("C07", "(R7.14) the Rollout controller's workload event handler matches a workload to its Rollout by group, kind and name and never by API version (no comparison of whole GroupVersionKind values).", r8C07)
 	extendProp("C08", "(R8.10) both admission handlers answer 'this workload is not selected by the webhook configuration' only after every entry and rule was examined (or the entry's selector cannot be parsed): the first entry whose rule matches does not decide alone.", r6C08)
 }
 
@@ -2268,4 +2270,85 @@ func r8C17(c *Ctx) {
 		c.Ob("R17.14", name+"#SetDefaultDeploymentStrategy", cs.Instr.Pos(), ok, "defaults are applied by a writer of the strategy annotation (webhook, Initialize)",
 			ifs(!ok, "the controller re-defaults the strategy it has just read: whatever the defaulting does to a partly specified rollingUpdate (today it overwrites maxUnavailable when maxSurge is absent) then governs the scaling instead of the stored values"))
 	}
+}
+
+// ---------------------------------------------------------------- C11 R11.15, C07 R7.14 (round 8)
+
+func r8C11(c *Ctx) {
+	p := c.Prog
+	c.Rule("R11.15", "refreshStatus records the plan hash only when none is recorded", 1)
+	fn := p.Func("pkg/controller/batchrelease.refreshStatus")
+	if fn == nil {
+		c.Unresolved("R11.15", "batchrelease.refreshStatus")
+		return
+	}
+	empty := FOr(FCmp("==", MLen(MField("ObservedReleasePlanHash")), MConst("0")), FCmp("==", MField("ObservedReleasePlanHash"), MConst("")))
+	n := 0
+	for _, st := range FieldStores([]*ssa.Function{fn}, "", "ObservedReleasePlanHash") {
+		n++
+		reach, _ := CanReach(Entry(fn), func(in ssa.Instruction) bool { return in == ssa.Instruction(st) }, ReachOpts{CutEdge: func(b *ssa.BasicBlock, k int) bool { return EdgeFactMatches(b, k, empty) }})
+		c.Ob("R11.15", "refreshStatus#hash-only-when-empty", st.Pos(), !reach, "observedReleasePlanHash is (re)recorded only when it is empty",
+			ifs(reach, "the hash is overwritten although one is recorded: a plan edit that arrives while the condition holds (a release sent back to Preparing keeps its currentBatch) is absorbed — isPlanChanged sees a matching hash, nothing is recalculated, and the executor goes on with a batch beyond the new batchPartition"))
+	}
+	if n == 0 {
+		c.Unresolved("R11.15", "refreshStatus: store of ObservedReleasePlanHash")
+	}
+}
+
+func r8C07(c *Ctx) {
+	p := c.Prog
+	c.Rule("R7.14", "a workload event finds its Rollout by group, kind and name — not by API version", 1)
+	fn := p.Func("pkg/controller/rollout.enqueueRequestForWorkload.getRolloutForWorkload")
+	if fn == nil {
+		c.Unresolved("R7.14", "enqueueRequestForWorkload.getRolloutForWorkload")
+		return
+	}
+	bad := ""
+	for _, g := range samePkgClosure(p, fn) {
+		for _, b := range g.Blocks {
+			for _, in := range b.Instrs {
+				bo, ok := in.(*ssa.BinOp)
+				if !ok || (bo.Op != token.EQL && bo.Op != token.NEQ) {
+					continue
+				}
+				ts := bo.X.Type().String()
+				if strings.HasSuffix(ts, "schema.GroupVersionKind") || strings.HasSuffix(ts, "schema.GroupVersion") {
+					bad = "whole " + ts[strings.LastIndex(ts, ".")+1:] + " values are compared at " + p.Pos(bo.Pos())
+				}
+				for _, v := range []ssa.Value{bo.X, bo.Y} {
+					if t := TermOf(v); MField("Version")(t) {
+						bad = "the API version is compared at " + p.Pos(bo.Pos())
+					}
+				}
+			}
+		}
+	}
+	// the positive part: a Rollout is returned only under group, kind and name equalities
+	n := 0
+	for _, ret := range returnsOf(fn) {
+		if len(ret.Results) != 2 {
+			continue
+		}
+		for _, lf := range Leaves(Forwarded(ret.Results[0]), ret.Block()) {
+			if k, isC := lf.V.(*ssa.Const); isC && k.IsNil() {
+				continue
+			}
+			n++
+			fs := append(append([]Fact{}, lf.Facts...), FactsFor(fn).At(ret.Block())...)
+			for _, need := range []struct {
+				d string
+				m FactM
+			}{
+				{"kind", FCmp("==", MField("Kind"), MField("Kind"))},
+				{"group", FCmp("==", MField("Group"), MField("Group"))},
+				{"name", FCmp("==", MField("Name"), MField("Name"))},
+			} {
+				if !HasFact(fs, need.m) && bad == "" {
+					bad = "a Rollout is returned at " + p.Pos(ret.Pos()) + " without the " + need.d + " having been compared"
+				}
+			}
+		}
+	}
+	c.Ob("R7.14", "getRolloutForWorkload#match-ignores-version", fn.Pos(), n > 0 && bad == "", "the match is group + kind + name",
+		ifs(bad != "", bad+": a Rollout may name its workload through another served version of the same kind (apps.kruise.io/v1alpha1 StatefulSet, watched as v1beta1); its workload events are then dropped, and for a Healthy rollout — which asks for no requeue — nothing else starts the release")+ifs(n == 0, "no return of a matched Rollout found"))
 }
